@@ -3,6 +3,8 @@
   (models: Model/C25.lean codec, Model/C26.lean DnsRef + layer; lemmas: Lemmas/C26.lean, Lemmas/C26Msg.lean)
 -/
 import MitmVerif.Lemmas.C26Msg
+import MitmVerif.Lemmas.C26Hist
+import MitmVerif.Props.C27
 set_option linter.unusedVariables false
 set_option linter.unusedSimpArgs false
 namespace MitmVerif.Props.C26
@@ -35,6 +37,23 @@ example : forwardTcp noIdna (frame [0,1,1,0,0,1,0,0,0,0,0,0, 1,0x61,0, 0,1,0,1])
 -- a valid frame in front of a malformed one is forwarded, then the connection is closed
 example : forwardTcp noIdna (frame [0,1,1,0,0,1,0,0,0,0,0,0, 1,0x61,0, 0,1,0,1] ++ frame [0xff]) =
     .done [frame [0,1,1,0,0,1,0,0,0,0,0,0, 1,0x61,0, 0,1,0,1]] true := by decide +kernel
+
+/-- two queries, answered in the opposite order, all over TCP and cut into odd segments -/
+def hq1 : Bytes := [0,1, 1,0, 0,1, 0,0, 0,0, 0,0, 1,0x61,0, 0,1, 0,1]
+def hq2 : Bytes := [0,2, 1,0, 0,1, 0,0, 0,0, 0,0, 1,0x62,0, 0,16, 0,1]
+def hr1 : Bytes := [0,1, 0x81,0x80, 0,1, 0,1, 0,0, 0,0, 1,0x61,0, 0,1, 0,1, 0xc0,0x0c, 0,1, 0,1, 0,0,0,60, 0,4, 192,0,2,1]
+def hr2 : Bytes := [0,2, 0x81,0x80, 0,1, 0,1, 0,0, 0,0, 1,0x62,0, 0,16, 0,1, 0xc0,0x0c, 0,16, 0,1, 0,0,0,60, 0,3, 2,0xc0,0x0c]
+def hEvents : List C27.Ev :=
+  [.clientData (C27.frame hq1 ++ (C27.frame hq2).take 5), .clientData ((C27.frame hq2).drop 5),
+   .serverData ((C27.frame hr2).take 1), .serverData ((C27.frame hr2).drop 1 ++ C27.frame hr1)]
+def hCfg : C27.Cfg := ⟨noIdna, true, true⟩
+
+/-- the frames this schedule delivers are the four messages, and the specification reads each forwarded frame as it
+    reads the frame it was made from (replies come back in the server's order, compressed names expanded) -/
+example : recvRun hCfg (C27.init [] []) hEvents = ([hq1, hq2], [hr2, hr1]) := by decide +kernel
+example : ((C27.run hCfg (C27.init [] []) hEvents).2.filterMap
+      (fun o => match o with | .toClient _ w => some (DnsRef.decode (w.drop 2)) | _ => none)) =
+    [DnsRef.decode hr2, DnsRef.decode hr1] := by decide +kernel
 
 /-! ### the theorems -/
 
@@ -203,5 +222,113 @@ theorem opaque_types_bytewise (buf : Bytes) (off len ty : Nat) (h : layoutOf ty 
 
 /-- the layout table generated from the code's `_RDATA_LAYOUT` is the specification's RFC table, for every type -/
 theorem code_layout_is_rfc_layout (ty : Nat) : layoutOf ty = DnsRef.layout ty := layout_agrees ty
+
+/-! ### round 3: whole connections (every interleaving of queries and replies, ids, TCP segmentation) -/
+
+/-- **C26 (whole connection).** The layer model of C27 (`DNSLayer.state_query`/`state_done` with its flows by id, the
+    pending-query check for replies, `req_buf`/`resp_buf` framing, OpenConnection results) run on *any* schedule of
+    client segments, server segments and closes, with no addon touching a flow (`acts = []`) and any outcome of the
+    connect attempts: every `SendData` to the server is the re-encoding `b'` of a frame `b` the client delivered, every
+    `SendData` to the client is the re-encoding of a frame the server delivered — and whenever the specification decoder
+    reads `b` it reads `b'` identically — or it is the SERVFAIL synthesised for a frame of the client. Nothing else is
+    ever sent. (Which replies are forwarded at all — id and question section of a pending query — is C27.) -/
+theorem history_preserves (c : C27.Cfg) (conns : List Bool) (evs : List C27.Ev) :
+    ∀ o ∈ (C27.run c (C27.init [] conns) evs).2,
+      SentOk c (recvRun c (C27.init [] conns) evs).1 (recvRun c (C27.init [] conns) evs).2 o :=
+  run_sent c evs (C27.init [] conns) rfl
+
+/-- **C26 (whole connection, any TCP segmentation).** Two schedules that interleave the same client and server byte
+    streams in the same way but cut them into segments differently send the same bytes, so what one of them sends is
+    justified by the frames the other delivers. -/
+theorem history_preserves_any_segmentation (c : C27.Cfg) (htcp : c.tcp = true) (conns : List Bool) (evs evs' : List C27.Ev)
+    (h : Props.C27.coalesce evs = Props.C27.coalesce evs') :
+    ∀ o ∈ (C27.run c (C27.init [] conns) evs).2,
+      SentOk c (recvRun c (C27.init [] conns) evs').1 (recvRun c (C27.init [] conns) evs').2 o := by
+  rw [Props.C27.interleaved_seg_independent c htcp (C27.init [] conns) evs evs' h]
+  exact history_preserves c conns evs'
+
+private theorem frame27_toNat (b : Bytes) (h : b.length < 65536) :
+    (UInt8.ofNat (b.length / 256)).toNat * 256 + (UInt8.ofNat (b.length % 256)).toNat = b.length := by
+  rw [toNat_ofNat_lt (by omega), toNat_ofNat_lt (by omega)]; omega
+
+/-- the frames a stream of complete, decodable frames delivers are exactly those frames, in order -/
+theorem delivered_frames (I : Idna) : ∀ (bs : List Bytes), (∀ b ∈ bs, 0 < b.length ∧ b.length < 65536 ∧ (unpack I b).isSome = true) →
+    parseB I (bs.flatMap C27.frame) = bs := by
+  intro bs
+  induction bs with
+  | nil => intro _; exact parseB_nil I
+  | cons b bs ih =>
+    intro hb
+    obtain ⟨hpos, hlt, hdec⟩ := hb b (by simp)
+    simp only [List.flatMap_cons, C27.frame, List.cons_append]
+    rw [parseB_cons2, frame27_toNat b hlt]
+    have h0 : ¬ b.length = 0 := by omega
+    have h1 : ¬ (b ++ bs.flatMap C27.frame).length < b.length := by simp
+    simp only [h0, h1, if_false, List.take_left, List.drop_left]
+    cases hu : unpack I b with
+    | none => simp [hu] at hdec
+    | some m => simp only; rw [ih (fun x hx => hb x (by simp [hx]))]
+
+/-! ### round 3: what a compressing encoder may write -/
+
+/-- the two bytes of a compression pointer to offset `t`: `struct.pack("!H", 0xC000 | t)` -/
+def ptrBytes (t : Nat) : Bytes := [UInt8.ofNat (192 ||| (t / 256)), UInt8.ofNat (t % 256)]
+
+private theorem or192 : ∀ x : Fin 64, 192 ||| x.val = 192 + x.val := by decide
+
+/-- labels followed by a pointer to an offset below 16384 are scanned as exactly these labels and this target.
+    (An encoder that writes a pointer to an offset >= 16384 — seed c26-2 — writes bytes that mean another target:
+    `ptrBytes` wraps around, see the example below.) -/
+theorem scanRaw_wire_ptr (ls : List Bytes) (t : Nat) (rest : Bytes) (hok : LabelsOk ls) (ht : t < 16384) :
+    scanRaw (wire ls ++ ptrBytes t ++ rest) = some (ls, (wire ls).length + 2, some t) := by
+  induction ls with
+  | nil =>
+    have hor : 192 ||| (t / 256) = 192 + t / 256 := or192 ⟨t / 256, by omega⟩
+    have h1 : (UInt8.ofNat (192 + t / 256)).toNat = 192 + t / 256 := toNat_ofNat_lt (by omega)
+    have h2 : (UInt8.ofNat (t % 256)).toNat = t % 256 := toNat_ofNat_lt (by omega)
+    simp only [wire, List.flatMap_nil, List.nil_append, ptrBytes, List.cons_append, List.length_nil, hor]
+    rw [scanRaw_cons, h1]
+    have : 192 ≤ 192 + t / 256 := by omega
+    simp only [this, if_true]
+    congr 3
+    rw [h2]; congr 1; omega
+  | cons l ls ih =>
+    obtain ⟨hne, hl⟩ := hok l (by simp)
+    have hpos : 0 < l.length := List.length_pos_iff.mpr hne
+    have htn : (UInt8.ofNat l.length).toNat = l.length := toNat_ofNat_lt (by omega)
+    rw [wire_cons]
+    simp only [List.cons_append, List.append_assoc]
+    rw [scanRaw_cons, htn]
+    have h1 : ¬ 192 ≤ l.length := by omega
+    have h2 : ¬ 64 ≤ l.length := by omega
+    have h3 : ¬ l.length = 0 := by omega
+    have h4 : ¬ (l ++ (wire ls ++ (ptrBytes t ++ rest))).length < l.length := by simp
+    simp only [h1, h2, h3, h4, if_false]
+    have := ih (fun l' hl' => hok l' (by simp [hl']))
+    simp only [List.append_assoc] at this
+    rw [List.drop_left, List.take_left, this]
+    simp; omega
+
+/-- **C26 (reading a compressed name).** A name written as labels `ls1` followed by a pointer to an earlier offset `t`
+    (below 16384 and below the start of this name) where the specification reads the name `ls2` is read by the
+    specification as `ls1 ++ ls2` — and by the proxy's cache-based decoder as the text of exactly these labels
+    (`unpackName_agrees`). This is the contract between any RFC 1035 compressing encoder and the decoder. -/
+theorem compressed_name_read (buf : Bytes) (off t : Nat) (ls1 ls2 : List Bytes) (n2 : Nat) (rest : Bytes)
+    (hb : buf.drop off = wire ls1 ++ ptrBytes t ++ rest) (hok : LabelsOk ls1) (ht : t < 16384) (hback : t < off)
+    (h2 : DnsRef.name buf t = some (ls2, n2)) :
+    DnsRef.name buf off = some (ls1 ++ ls2, (wire ls1).length + 2) ∧
+    ∀ (I : Idna) (cache : Cache) (depth : Nat) (txt : Text) (n : Nat) (c' : Cache), CacheAgree I buf cache →
+      unpackName I buf off cache depth = some ((txt, n), c') →
+      n = (wire ls1).length + 2 ∧ NameRel I txt (ls1 ++ ls2) := by
+  have hname : DnsRef.name buf off = some (ls1 ++ ls2, (wire ls1).length + 2) := by
+    rw [name_unfold, hb, scanRaw_wire_ptr ls1 t rest hok ht]
+    simp [hback, h2]
+  refine ⟨hname, ?_⟩
+  intro I cache depth txt n c' hca hu
+  obtain ⟨e1, e2, _⟩ := unpackName_agrees I buf off _ _ hname cache depth txt n c' hca hu
+  exact ⟨e1, e2⟩
+
+-- 14 bits: a pointer "to 16384 + 12" is a pointer to 12
+example : ptrBytes (16384 + 12) = ptrBytes 12 ∧ ptrBytes 16383 ≠ ptrBytes 0 := by decide
 
 end MitmVerif.Props.C26
